@@ -328,6 +328,16 @@ def F33():
     return hits[0][2][:300] if hits else None
 
 
+def F34():
+    """C07: the network thread is stopped with the socket open while two application threads are still publishing: both
+    write directly (`_thread is None`), partial writes interleave and the byte stream is corrupted."""
+    from streams.threads import check, run_scenario
+    line = "thr seed=354124 policy=hold sw=0.1 msgs=2,0;0;0 N=2 early=1 proto=5 conn=async drop=3 part=9"
+    o = run_scenario(line)
+    bad = [d for c, d in check(o, line) if c == "wire-corrupt-after-loop-exit"]
+    return bad[0][:300] if bad else None
+
+
 def F27():
     """C01: a QoS 1 message accepted while disconnected (MQTT_ERR_NO_CONN) is sent and acknowledged after connecting,
     on_publish fires - but its MQTTMessageInfo keeps raising in is_published()/wait_for_publish()."""
@@ -598,7 +608,7 @@ def F18():
 
 
 ALL = {"F1": F1, "F2": F2, "F3": F3, "F4": F4, "F4b": F4b, "F5": F5, "F6": F6, "F7": F7, "F8": F8, "F9": F9,
-       "F10": F10, "F19": F19, "F20": F20, "F21": F21, "F22": F22, "F23": F23, "F24": F24, "F25": F25, "F26": F26, "F29": F29, "F27": F27, "F28": F28, "F11": F11, "F12": F12, "F13": F13, "F13t": F13t, "F33": F33, "F32": F32, "F31": F31, "F30": F30, "F15": F15, "F16": F16, "F17": F17, "F18": F18}
+       "F10": F10, "F19": F19, "F20": F20, "F21": F21, "F22": F22, "F23": F23, "F24": F24, "F25": F25, "F26": F26, "F29": F29, "F27": F27, "F28": F28, "F11": F11, "F12": F12, "F13": F13, "F13t": F13t, "F34": F34, "F33": F33, "F32": F32, "F31": F31, "F30": F30, "F15": F15, "F16": F16, "F17": F17, "F18": F18}
 
 
 def run(name):
